@@ -850,7 +850,10 @@ def oracle_cli(case, ans):
     else:
         fails = check_transform("diff", lines, po, pn)
     if po == pn and lines:
-        fails.append(_fail("same configuration but the diff is not empty", line=parse_paths(lines)[:4]))
+        cmds = parse_paths(lines)
+        # name the commands themselves, not the section headers printed above them
+        leaves = [c for i, c in enumerate(cmds) if not (i + 1 < len(cmds) and cmds[i + 1][:len(c)] == c and len(cmds[i + 1]) > len(c))]
+        fails.append(_fail("same configuration but the diff is not empty", line=leaves[:4]))
     return fails[:4]
 
 
